@@ -433,7 +433,7 @@ func pipeSpecFromInput(input string, dir string) *PipeSpec {
 	sched, _ := strconv.ParseUint(kv["sched"], 10, 64)
 	sp := &PipeSpec{Dir: dir, Job: "j", SiteSeed: site, SiteMode: kv["mode"], Workers: atoi("w", 1), MCA: atoi("mca", 1),
 		Seencheck: atoi("seencheck", 1) == 1, Pool: atoi("pool", 1), MaxRetry: atoi("retry", 1), MaxRedirect: atoi("mr", 3),
-		MaxHops: 0, SchedSeed: sched, IdleMs: 700, TimeoutMs: atoi("timeout", 60000), Async: atoi("async", 0) == 1,
+		MaxHops: atoi("maxhops", 0), SchedSeed: sched, IdleMs: 700, TimeoutMs: atoi("timeout", 60000), Async: atoi("async", 0) == 1,
 		RateLimit: atoi("rl", 0) == 1, Proxy: atoi("proxy", 0) == 1, OnDisk: atoi("ondisk", 0) == 1, LocalDedupe: atoi("dedupe", 0) == 1,
 		Footprint: atoi("footprint", 0) == 1}
 	n := atoi("seeds", 3)
